@@ -472,7 +472,9 @@ func (r *crun) again() bool {
 				r.v.set("second-connection-frame-lost", "second connection to %q on the same port: data frame %d (%d bytes) sent on an idle link never reached Read although the frame sent after it did (Read has %d bytes: %q)", c.Remote, lost, len(frames[lost]), have(), got)
 				return false
 			}
-			break // nothing arrives at all: not decidable here (reported as a hang by the caller's watchdog)
+			// nothing arrives at all: two frames, each sent alone on an idle link, and 50 s of waiting
+			r.v.set("second-connection-dead", "second connection to %q on the same port: neither data frame %d (%d bytes) nor the frame sent 20 s after it reached Read within another 30 s, on an idle link (Read has %d bytes)", c.Remote, lost, len(frames[lost]), have())
+			return false
 		}
 		if waitFor(sent+len(f), 2000) {
 			sent += len(f)
@@ -738,6 +740,16 @@ func (r *crun) inRound(rd Round) {
 				}
 				if cs.got != lastGot {
 					lastGot, since = cs.got, time.Now()
+				}
+				if nprobes >= 8 && time.Since(since) > 20*time.Second {
+					// eight probe frames, each sent alone after 1.5 s without any progress of a reader that sits in Read,
+					// and another 20 s: nothing this connection is sent reaches Read any more. The known whole-frame
+					// loss needs a busy queue; this link was quiet each time. The reader cannot be called back from
+					// inside Read, so the case is recorded and the process ends here.
+					msg := fmt.Sprintf("the connection's stream is dead: Read has delivered %d of the %d bytes the TNC sent and nothing more for over 30 s, although the TNC then sent 8 further data frames for this connection, one at a time and 1.5 s apart on an otherwise quiet link (stage %s; host frames so far: %s)", cs.got, len(cs.expected), r.stage(), hostKinds(r.sim.Events()))
+					cs.mu.Unlock()
+					harness.Record("stream-dead", r.c, msg)
+					harness.ExitHung()
 				}
 				if time.Since(since) > 1500*time.Millisecond && nprobes < 8 {
 					nprobes++
